@@ -470,9 +470,19 @@ impl Stats {
         }
         let mut req: Vec<String> = Vec::new();
         match self.prop {
-            Prop::C01 => req.push("probe.conflicting_pair_both_ran".into()),
+            Prop::C01 => {
+                req.push("probe.conflicting_pair_both_ran".into());
+                req.push("probe.conflicting_pair_same_rank".into());
+                req.push("probe.two_or_more_in_flight".into());
+            }
             Prop::C02 => req.push("probe.dependent_function_started".into()),
-            Prop::C03 => req.push("probe.clean_run_finished".into()),
+            Prop::C03 => {
+                req.push("probe.clean_run_finished".into());
+                if self.evaluations >= 100_000 {
+                    req.push("probe.clean_wide_run_finished".into());
+                    req.push("fault.late_poll_more_than_64_events_between_polls".into());
+                }
+            }
             Prop::C04 => {
                 req.push("exit_path.finished".into());
                 req.push("exit_path.empty".into());
@@ -501,10 +511,20 @@ impl Stats {
                     req.push("fault.mid_poll_ref_drop_in_waker_registration".into());
                 }
             }
-            Prop::C06 => req.push("probe.idle_points_evaluated".into()),
+            Prop::C06 => {
+                req.push("probe.idle_points_evaluated".into());
+                req.push("probe.idle_with_two_in_flight".into());
+                req.push("probe.runs_under_virtual_time_discipline".into());
+            }
             Prop::C10 => req.push("probe.limit_reached_exactly".into()),
-            Prop::C15 => req.push("probe.prefix_run_aborted".into()),
+            Prop::C15 => {
+                req.push("probe.prefix_run_aborted".into());
+                req.push("probe.prefix_aborted_with_functions_in_flight".into());
+                req.push("probe.prefix_run_failed".into());
+                req.push("probe.prefix_run_completed".into());
+            }
             Prop::C20 => req.push("probe.runs_overlapped_in_flight".into()),
+            Prop::C07 => req.push("probe.two_or_more_failed".into()),
             _ => {}
         }
         if self.nontrivial == 0 && !(self.prop == Prop::C08 && !FEATURE_I) {
